@@ -47,7 +47,7 @@ Proof. split; [reflexivity|]. eexists. vm_compute. reflexivity. Qed.
 
 (** D12b (recorded finding): inside a comprehension the parts are visited on their own.
     all(10 // n > v for v in xs) and flag   with n = 0, xs = [], flag = False: Python gives False,
-    the re-evaluator raises ZeroDivisionError. *)
+    the re-evaluator raises (ZeroDivisionError) while it visits the element on its own. *)
 Definition spec_body : expr :=
   EBool true (ECons (ECall (EName "all")
      (ECons (EComp KGen (ECmp (EBin BFloorDiv (EConst (VInt 10)) (EName "n")) (CCons CGt (EName "v") CNil)) EOmit
@@ -55,5 +55,5 @@ Definition spec_body : expr :=
 Theorem C07_speculative_refuted :
   let m := [("n", VInt 0); ("xs", VList []); ("flag", VBool false)] in
   (exists m' l, ev py_prims 0 spec_body (m, []) = Ok (VBool false, (m', l))) /\
-  rc py_prims 0 spec_body (up m, []) = Err ZeroDiv.
+  rc py_prims 0 spec_body (up m, []) = Err Speculative.
 Proof. split; [eexists; eexists; vm_compute; reflexivity|vm_compute; reflexivity]. Qed.
